@@ -18,12 +18,12 @@ type slashInv struct {
 	idExisted bool
 	// statistics
 	nonZero, atRisk, notAtRisk, replays, shrunk int
-	both                                          bool
+	both                                        bool
 }
 
 type kvSnap struct{ k, v string }
 
-func (s *slashInv) Init(m *Machine) error       { return nil }
+func (s *slashInv) Init(m *Machine) error        { return nil }
 func (s *slashInv) Before(m *Machine, a *Action) {}
 
 // PreSlash is called by the machine after the block advance and before the slash call.
